@@ -301,8 +301,14 @@ UOpenSlice(s, sl, now, delta) ==
         full == c1.got = 0..(c1.n - 1)
         completed == [s EXCEPT !.uOpen = Drop(@, {sl.mid}), !.cB = @ + c1.len]
         stored == [s EXCEPT !.uOpen = Put(@, sl.mid, c1)]
+        \* an unreliable channel may ignore any packet (e.g. a datagram it recognises as a duplicate): a slice that would have
+        \* completed the message but left the accounted memory untouched was not stored -- the reassembly stays open (and counts)
+        \* until it completes or goes stale; nothing is demanded that the property does not state
+        ignored == [s EXCEPT !.uOpen = Put(@, sl.mid, [cur EXCEPT !.last = now])]
     IN IF has
-       THEN IF full THEN [s |-> completed, ok |-> delta = c1.len - c1.n * SLICE]
+       THEN IF full THEN (IF delta = c1.len - c1.n * SLICE THEN [s |-> completed, ok |-> TRUE]
+                          ELSE IF delta = 0 THEN [s |-> ignored, ok |-> TRUE]
+                          ELSE [s |-> completed, ok |-> FALSE])
             ELSE [s |-> stored, ok |-> delta = 0]
        ELSE IF delta = 0 THEN [s |-> s, ok |-> TRUE]                       \* no room for the reservation: dropped
             ELSE IF full THEN [s |-> completed, ok |-> delta = c1.len]
